@@ -240,7 +240,7 @@ M("r3e-revert-F21", ["C17", "C14"], "break",
 M("r3e-sgrammar-flag-not-volatile", ["C17"], "break",
   [("sgramm.y", "  volatile int created_p = FALSE;", "  int created_p = FALSE;")], "set_sgrammar/created_p")
 M("r2d-revert-F17", ["C17", "C14"], "break",
-  [("sgramm.y", "      if (created_p)\n	free_sgrammar ();\n      return code;", "      free_sgrammar ();\n      return code;")], "yaep_parse_grammar/")
+  [("sgramm.y", "      if (created_p)\n	free_sgrammar ();\n      return err_code;", "      free_sgrammar ();\n      return err_code;")], "yaep_parse_grammar/")
 M("r2d-flag-set-too-early", ["C17", "C14"], "break",
   [("sgramm.y", "  OS_CREATE (strans, g->alloc, 0);\n  created_p = TRUE;", "  created_p = TRUE;\n  OS_CREATE (strans, g->alloc, 0);")], "yaep_parse_grammar/strans")
 M("r2d-parse-flag-before-init", ["C17", "C14"], "break",
@@ -321,3 +321,49 @@ M("r8-method-add-byte-no-check", ["C19", "C16"], "break",
   [("vlobject.h", "    if (vlo_free >= vlo_boundary)\n      _VLO_expand_memory (1);\n    *vlo_free++ = b;", "    *vlo_free++ = b;")], "VLO_ADD_BYTE~")
 M("r8-benign-growth-factor-one-twin", ["C19", "C16"], "benign",
   [("hashtab.cpp", "    new hash_table (alloc, number_of_elements * 2, hash_function,", "    new hash_table (alloc, number_of_elements * 3, hash_function,")])
+
+# ---- C11 -----------------------------------------------------------------------------------------------
+M("c11-revert-F11", ["C11"], "break",
+  [("sgramm.y", "  if ((err_code = setjmp (error_longjump_buff)) != 0)", "  if ((code = setjmp (error_longjump_buff)) != 0)")], "implicit-code-counter")
+M("c11-codes-from-255", ["C11"], "break", [("sgramm.y", "  int code = 256;", "  int code = 255;")], "implicit-code-counter")
+M("c11-code-step-2", ["C11"], "break", [("sgramm.y", "	term->code = code++;", "	{ term->code = code; code += 2; }")], "implicit-code-counter")
+M("c11-implicit-for-zero-too", ["C11"], "break", [("sgramm.y", "      if (term->code < 0)\n	term->code = code++;", "      if (term->code <= 0)\n	term->code = code++;")], "implicit-code-condition")
+M("c11-default-cost-zero", ["C11"], "break", [("sgramm.y", "cost :         { anode_cost = 1;}", "cost :         { anode_cost = 0;}")], "yyparse/anode_cost")
+M("c11-char-code-wrong-index", ["C11"], "break", [("sgramm.y", "	  term.code = term.repr [1];", "	  term.code = term.repr [0];")], "char-constant-code")
+M("c11-replay-swaps-fields", ["C11"], "break", [("sgramm.y", "  *abs_node = rule->anode;", "  *abs_node = rule->lhs;")], "sread_rule/*abs_node")
+M("c11-yyerror-other-code", ["C11"], "break", [("sgramm.y", "  yaep_error (YAEP_DESCRIPTION_SYNTAX_ERROR_CODE,\n	      \"description syntax error on ln %d\", ln);", "  yaep_error (YAEP_NO_RULES,\n	      \"description syntax error on ln %d\", ln);")], "yyerror/code-and-line")
+M("c11-benign-preincrement-form", ["C11"], "benign", [("sgramm.y", "	term->code = code++;", "	{ term->code = code; code = code + 1; }")])
+
+# ---- R6 (C09, C01) ---------------------------------------------------------------------------------------
+M("r6-side-effect-under-debug", ["C09"], "break",
+  [("yaep.c", "	  fprintf (stderr, \"\\nReading %d=\", tok_curr);", "	  fprintf (stderr, \"\\nReading %d=\", tok_curr);\n	  lookahead_term_num = -1;")], "R6")
+M("r6-debug-level-selects-value", ["C09"], "break",
+  [("yaep.c", "  best_cost = 2 * toks_len;", "  best_cost = (grammar->debug_level > 7 ? toks_len : 2 * toks_len);")], "R6")
+M("r6-debug-returns-early", ["C09"], "break",
+  [("yaep.c", "  if (grammar->debug_level > 2)\n    fprintf (stderr, \"\\n++Error recovery start\\n\");", "  if (grammar->debug_level > 2)\n    {\n      fprintf (stderr, \"\\n++Error recovery start\\n\");\n      if (toks_len == 0)\n	return;\n    }")], "R6")
+M("r6-printer-writes-state", ["C09"], "break",
+  [("yaep.c", "  fprintf (f, \"%3d \", sit->sit_number);\n  rule_dot_print (f, sit->rule, sit->pos);", "  fprintf (f, \"%3d \", sit->sit_number);\n  sit->context = 0;\n  rule_dot_print (f, sit->rule, sit->pos);")], "printer/sit_print")
+M("r6-debug-used-as-value", ["C09"], "break",
+  [("yaep.c", "  n_goto_successes = 0;\n  tok_init ();", "  n_goto_successes = grammar->debug_level;\n  tok_init ();")], "R6")
+M("r6-benign-more-printing", ["C09"], "benign",
+  [("yaep.c", "  if (grammar->debug_level > 2)\n    fprintf (stderr, \"\\n++Error recovery start\\n\");", "  if (grammar->debug_level > 2)\n    {\n      fprintf (stderr, \"\\n++Error recovery start\\n\");\n      fprintf (stderr, \"tokens: %d\\n\", toks_len);\n    }")])
+
+# ---- T1 / T3 / R6-flags (C01, C02, C06) -------------------------------------------------------------------
+M("t3-wrong-attr-index", ["C06"], "break",
+  [("yaep.c", "			    start, toks[start].attr, stop,\n			    toks[stop].attr);", "			    start, toks[start].attr, stop,\n			    toks[start].attr);")], "syntax_error#")
+M("t3-error-token-attr-of-next", ["C06"], "break",
+  [("yaep.c", "	      syntax_error (saved_tok_curr, toks[saved_tok_curr].attr,\n			    -1, NULL, -1, NULL);", "	      syntax_error (saved_tok_curr, toks[tok_curr + 1].attr,\n			    -1, NULL, -1, NULL);")], "syntax_error#")
+M("t3-recovery-off-continues", ["C06", "C01"], "break",
+  [("yaep.c", "			    -1, NULL, -1, NULL);\n	      break;", "			    -1, NULL, -1, NULL);\n	      continue;")], "syntax_error#")
+M("t3-recovery-flag-inverted", ["C06", "C01"], "break",
+  [("yaep.c", "	      if (grammar->error_recovery_p)\n	    {\n	      error_recovery (&start, &stop);", "	      if (!grammar->error_recovery_p)\n	    {\n	      error_recovery (&start, &stop);")], "recovery-switch")
+M("t1-term-attr-previous-token", ["C02", "C06", "C13"], "break",
+  [("yaep.c", "		      node->val.term.attr = toks[pl_ind].attr;", "		      node->val.term.attr = toks[tok_curr].attr;")], "term.attr")
+M("t1-term-code-num", ["C02"], "break",
+  [("yaep.c", "		      node->val.term.code = symb->u.term.code;", "		      node->val.term.code = symb->u.term.term_num;")], "term.code")
+M("t1-tok-attr-dropped", ["C02", "C06"], "break",
+  [("yaep.c", "  tok.attr = attr;\n  tok.symb = symb_find_by_code (code);", "  tok.attr = NULL;\n  tok.symb = symb_find_by_code (code);")], "tok.attr")
+M("r6f-recogniser-reads-one-parse", ["C01"], "break",
+  [("yaep.c", "  local_lookahead_level = (lookahead_term_num < 0\n			   ? 0 : grammar->lookahead_level);", "  local_lookahead_level = (lookahead_term_num < 0 || !grammar->one_parse_p\n			   ? 0 : grammar->lookahead_level);")], "recogniser/")
+M("r6f-acceptance-depends-on-cost", ["C01"], "break",
+  [("yaep.c", "      || sit->rule->lhs != grammar->axiom || sit->pos != sit->rule->rhs_len)\n    {", "      || sit->rule->lhs != grammar->axiom || sit->pos != sit->rule->rhs_len\n      || (grammar->cost_p && toks_len > 100000))\n    {")], "make_parse/acceptance")
